@@ -638,7 +638,7 @@ def run(ctx):
     ]
     if not total['fixpoint']:
         ctx.cap('no fixpoint within budget')
-    if not ctx.violations:
+    if not ctx.new_violations():
         fault_part(ctx)
 
 
